@@ -244,6 +244,10 @@ def gen_alias(quick, seed):
         'r = [0, 0]\nfor i = 0; i < 2; i = i + 1 {\nl = [0, []]\nprobe(l)\nl[0] = i + 1\nr[i] = l\n}\nprobe(r)',
         'for v in [1, 2] {\nm = {"n": 0, "e": {}}\nprobe(m)\nm["n"] = v\nm["e"]["x"] = v\n}\nprobe({}, {"n": 0, "e": {}})',
         'a = {}\nb = a\nc = {}\nb["x"] = 1\nc["y"] = 2\nprobe(a, b, c)',
+        # an empty literal is an empty container like any other: same snapshot text, equal to and contained like an empty slice result
+        'one = [1]\nprobe([] == one[1:], one[1:] == [], [] in [one[1:]], one[1:] in [[]], [] != one[1:])\nadd_key(s1, [])\nadd_key(s2, [[], 1])\n'
+        'add_key(s3, {"k": []})\nadd_key(s4, one[1:])\nadd_key(s5, {})\nprobe(len([]), [] == [], {} == {})',
+        'e = []\nm = {"k": e, "l": [e]}\nadd_key(s1, m)\nset_tag(t1, e)\nprobe(m, e == m["k"], e in m["l"])',
     ]
     for i, t in enumerate(fixed):
         out.append(ps("alias:%d" % i, t, tag="aliasing"))
@@ -699,6 +703,8 @@ CHECK_TEMPLATES = [
     "for v in @ { }", "for v in [1] { y = @ }", "for v in [1] { if v { y = @ } }",
     "x = [@]", "x = [1, @]", "x = [[@]]", 'x = {"k": @}', 'x = {"a": 1, "b": @}', "x = {@: 1}",
     "z[@] = 1", "x = z[@]", "x = z[0][@]", "z[0][@] = 2",
+    "x = 1 + @ + 2", "x = z[0] * @ * 3 - 1", 'x = "p" + @ + "s" + "t"', "x = 1 - 2 - @ - 4", "add_key(k, 1 + @ + 2)", "x = 1 + 2 * @ * 3", "x = 1 < @ + 2 + 3",
+    "x = true && @ && false", "x = 1 == @ == 2" if False else "x = (1 + @) + 2",
     "x = .[@]", ".[@]", "x = .[0][@]", "if .[@] == 1 { }", "x = .[@].b", "x = z.b[@]", "x = z.b.c[0][@]", "for ; .[@]; { break }",
     "x = z[@:]", "x = z[:@]", "x = z[::@]", "x = z[1:@]", "x = z[1::@]", "x = z[:1:@]", "x = z[1:2:@]", "x = z[@:1:1]", "x = z[@::1]",
     'x = "abc"[@:]', "x = [1, 2][::@]", "x = z[1:][@:]", "x = len(z)[::@]",
